@@ -15,7 +15,10 @@ def gen_history(r, w):
     lo, hi = 0, 1
     M = 1 << w
     CAP = 1 << 21          # cells: the touched span grows multiplicatively; keep allocations below ~16 MB
+    far_at = r.below(n) if r.below(10) == 0 else -1      # one history in ten makes one far excursion
+    ops_count = []
     for _ in range(n):
+        ops_count.append(0)
         k = r.random()
 
         def edge():
@@ -63,6 +66,17 @@ def gen_history(r, w):
                 lo, hi = min(lo, pos + a), max(hi, pos + b)
         else:
             ops.append("c:%d" % edge())
+        if far_at == len(ops_count) - 1:
+            # a far excursion and back: two moves in the same direction whose sum leaves the isize range
+            # (the logical pointer stays exact: offsets are kept modulo 2^64), reads and bounds queries out
+            # there (0 / not accessible, no allocation), then the inverse moves in the other order
+            sgn = r.choice([1, -1])
+            x1 = sgn * r.choice([(1 << 63) - 1, 1 << 62, (1 << 62) + 12345, 1 << 40])
+            x2 = sgn * r.choice([1, 7, 5000, 1 << 62, (1 << 61)])
+            ops += ["m:%d" % x1, "m:%d" % x2]
+            for _ in range(r.randint(0, 3)):
+                ops.append(r.choice(["r:%d", "c:%d"]) % r.choice([0, 1, -1, 100, -x2 if abs(x2) < (1 << 20) else 3]))
+            ops += ["m:%d" % -x1, "m:%d" % -x2]
     return ";".join(ops)
 
 
@@ -88,8 +102,12 @@ def evaluate(res, cases, impl, model, max_report=4):
             if rm.startswith("toolarge"):
                 continue
             raise C.CheckFailure("model failed on %s: %s" % (ops, rm))
-        elif "MISMATCH" in mstat or "notsmall" in mstat:
-            raise C.CheckFailure("model contradicts its own theorem/guard on %s: %s" % (ops, rm))
+        elif "notsmall" in mstat:
+            # far excursions (positions beyond 2^60) are outside the hypothesis of C09_tape_refines: these
+            # histories are judged by the harness' own reference (a map over 128-bit logical positions, "facts")
+            stats["far_excursions"] = stats.get("far_excursions", 0) + 1
+        elif "MISMATCH" in mstat:
+            raise C.CheckFailure("model contradicts its own theorem on %s: %s" % (ops, rm))
         else:
             if "growths=0" not in ifacts:
                 stats["growth_histories"] += 1
